@@ -125,6 +125,7 @@ class Build:
         self.psy = None
         self.schedule = None
         self.accepted = []
+        self.last_error = None
         self.fresh()
 
     def close(self):
@@ -236,6 +237,7 @@ class Build:
         except HarnessError:
             raise
         except Exception as err:      # pylint: disable=broad-except
+            self.last_error = f"{type(err).__name__}: {str(err)[:160]}"
             return f"error:{type(err).__name__}"
         return "ok"
 
@@ -304,12 +306,15 @@ def evaluate(case, stats=None):
         return ("discard", str(err))
     try:
         statuses = []
+        errors = []
         for step in case["history"]:
             if len(build.accepted) >= MAX_ACCEPTED:
                 break
             status = build.step(step)
             if status.startswith("error:"):
                 statuses.append(f"error:{step['t']}:{status[6:]}")
+                if "GenerationError" not in status:
+                    errors.append(f"{step['t']}: {build.last_error}")
             else:
                 statuses.append(status.split(":")[0] + ":" + step["t"])
         nloops, nhx = build.counts()
@@ -347,7 +352,7 @@ def evaluate(case, stats=None):
             case.get("seed", 0))
         info = {"accepted": list(build.accepted), "mesh": mesh,
                 "states": len(states), "exhaustive": exhaustive,
-                "statuses": statuses,
+                "statuses": statuses, "errors": errors,
                 "nhx": got_hx,
                 "async": sum(1 for e in events if e["ev"] == "hx"
                              and e["mode"] == "start"),
@@ -510,6 +515,10 @@ def run(ctx):
         for stat in info["statuses"]:
             if stat.startswith("error:"):
                 ctx.label(stat)
+        for err in info.get("errors", []):
+            lst = ctx.extra.setdefault("transformation_crashes", [])
+            if err not in lst and len(lst) < 5:
+                lst.append(err)
         if any(a.get("st") for c in spec["calls"] if c["kind"] == "kern"
                for a in c["args"]):
             ctx.label("has_stencil")
